@@ -98,7 +98,8 @@ class Machine(base.Machine):
         return op
 
     def _gen_fault(self, rng):
-        if self.dim > 1 and rng.random() < 0.015:
+        if self.dim > 1 and rng.random() < 0.02 and \
+                self.spec["model"]["cls"] in ("Gaussian", "Exponential", "Matern"):
             # a long history of steps that are each below the tolerance of the model comparison
             return {"fault": "creep", "steps": rng.choice([2000, 3000]),
                     "rel": rng.choice([8e-6, 6e-6]),
@@ -122,6 +123,9 @@ class Machine(base.Machine):
         # ignored (models are compared with a relative tolerance of 1e-5), their sum may not
         if self.dim == 1:
             raise Inapplicable("needs a ratio")
+        if self.spec["model"]["cls"] not in ("Gaussian", "Exponential", "Matern"):
+            # every noticed step recalculates the spectrum: only closed-form spectra are cheap
+            raise Inapplicable("numerical spectrum: thousands of Hankel transforms")
         srf = self.sut.srf
         m = srf.model
         pts = np.array(op["pts"], dtype=np.double).T
